@@ -27,6 +27,11 @@ namespace OP2Utility::Stream
 		if ((openMode & OpenMode::Truncate) != 0) {
 			iosOpenMode |= std::ios_base::trunc;
 		}
+		else if (XFile::PathExists(filename)) {
+			// A std::ofstream opened with plain std::ios_base::out truncates an existing file even when
+			// std::ios_base::trunc is not requested. Adding std::ios_base::in preserves the contents.
+			iosOpenMode |= std::ios_base::in;
+		}
 		if ((openMode & OpenMode::Append) != 0) {
 			iosOpenMode |= std::ios_base::ate;
 		}
